@@ -14,3 +14,50 @@ na("C18", "every clause equates results of separate runs on different networks (
           "with a sub-diagram, agreement with AEON on a model collection); no construct in the code carries the property, "
           "so no sound static rule exists. The one structural precondition (sub-diagrams over backward-closed variable "
           "sets) is decided under C01.")
+
+claim("C04",
+      "typestate analysis of the expanded flag against edge creation on CFG paths (must-pass-through, dominance), "
+      "dedupe guard and key provenance at node creation, def-use provenance of the successor list",
+      "Decides on every path of every function that can add an edge: a node that gains a successor is finalised "
+      "(expanded=True on the same handle) and was tested unexpanded; the flag is only ever raised; nothing is removed; "
+      "a node is created only after a failed lookup of the key of its percolated space and is registered under it; the "
+      "single-node expansion feeds the complete solver result for that node, unfiltered, into child creation. These are "
+      "the invariants 'expanded => all successors, unexpanded => none, one node per trap space' as path properties.",
+      "Does not decide that a continued full expansion equals a fresh one as values (follows from these invariants plus "
+      "solver determinism, C19/C09). The source-SCC root shortcut is exempt from the not-yet-expanded rule (fresh diagrams only).",
+      "DESIGN.md §3 C04")
+
+claim("C15",
+      "window analysis on the CFG between edge creation and finalisation using interprocedural may-raise and "
+      "solver-reachability summaries (specialised on constant Boolean arguments); path conditions of limit returns "
+      "decided by truth tables; completeness of the expanded successor list by enumeration of integer orderings",
+      "Decides that no RuntimeError (limit errors, solver failures) can escape between the first edge of a batch and the "
+      "node's finalisation, that limit errors are raised before any irreversible heap effect, that every return under a "
+      "limit test returns False with the pending node known unexpanded, that abandoned work clears the returned flag, "
+      "that failed candidate searches never justify an 'attractor-free' mark, and that a truncated successor list cannot "
+      "reach child creation.",
+      "Exceptions other than RuntimeError (KeyError from API misuse, assertions) are outside the rule; equality of a "
+      "resumed run with an uninterrupted one as values is not decided (follows from C04 + C19).",
+      "DESIGN.md §3 C15")
+
+claim("C16",
+      "set comparison of persisted/declared/restored state keys, definite assignment of slots on all CFG paths, "
+      "provenance (text-normal-form summary) of self.network on constructor and deserialiser paths, reclaim table "
+      "against recompute-on-demand accessors, path-enumerated None-safety of reclaimable fields",
+      "Decides the structural preconditions of transparency: nothing persisted is dropped or restored from the wrong "
+      "source, index-sensitive persisted data (node_indices) refers to a network in the same variable order before and "
+      "after a round trip, reclamation only drops data that has a recompute path, and every reader of reclaimable data "
+      "tolerates None or is preceded by a computing access.",
+      "Does not decide that pickle preserves third-party objects or that later answers are equal as values.",
+      "DESIGN.md §3 C16")
+
+claim("C20",
+      "structural rules over the metadata code: depth stores and their guards (numeric truth tables), must-pass-through "
+      "of the depth update after add_edge, recursion to dag.successors, iteration domains and guard equivalence of the id "
+      "iterators / comparators / aggregators, constant extraction for the key arithmetic",
+      "Decides depth closure (never lowered, parent+1, propagated to existing successors, updated after every new edge), "
+      "id contiguity, find_node's lookup discipline and injectivity of the space key, that is_subgraph compares every "
+      "node and every expanded node's edges and is_isomorphic both directions, and that build/summary aggregate only "
+      "expanded nodes and label by node_is_minimal.",
+      "networkx semantics of add_edge/successors assumed; exactly-once listing additionally needs C01/C14.",
+      "DESIGN.md §3 C20")
